@@ -409,6 +409,9 @@ pub struct VecCase {
     pub roots: Vec<String>,
     pub tokens: Vec<String>,
     pub binary: bool,
+    /// (binary runs only) the token at this index is replaced by bytes that are not valid UTF-8
+    #[serde(default)]
+    pub raw_bytes_at: Option<usize>,
 }
 
 const NASTY: &[&str] = &[
@@ -525,7 +528,11 @@ fn gen_vec(g: &mut Gen) -> VecCase {
         3 => vec!["c/r/".to_string(), "c/r/odd".to_string()],
         _ => vec!["c/r".to_string()],
     };
-    VecCase { flags, roots, tokens, binary: g.chance(1, 8) }
+    let binary = g.chance(1, 8);
+    // (not in front of an operand that looks like an absolute path, e.g. "-perm /222": the lexical
+    // sandbox guard identifies pattern operands by the primary before them)
+    let raw_bytes_at = if binary && !tokens.is_empty() && g.chance(1, 4) { Some(g.below(tokens.len() as u64) as usize).filter(|k| tokens.get(k + 1).map_or(true, |n| !n.starts_with('/'))) } else { None };
+    VecCase { flags, roots, tokens, binary, raw_bytes_at }
 }
 
 fn weird_tree() -> TreeSpec {
@@ -569,7 +576,14 @@ fn check_vec(ctx: &mut Ctx, c: &VecCase) -> Outcome {
     let multibyte = c.tokens.iter().any(|t| !t.is_ascii());
     let (status, visited, diag);
     if c.binary {
-        let a: Vec<OsString> = args.iter().map(OsString::from).collect();
+        let mut a: Vec<OsString> = args.iter().map(OsString::from).collect();
+        if let Some(k) = c.raw_bytes_at {
+            use std::os::unix::ffi::OsStringExt;
+            let at = c.flags.len() + c.roots.len() + k;
+            if at < a.len() {
+                a[at] = OsString::from_vec(vec![b'x', 0xff, 0xfe, b'*']);
+            }
+        }
         let log = ctx.root.join("rec.log");
         let o = ctx.run_bin(&find_bin(), &a, &BinOpts { env: vec![("VERIF_REC_LOG".into(), log.into_os_string())], timeout_s: 60, ..Default::default() });
         if !o.ordinary() {
@@ -596,6 +610,7 @@ fn check_vec(ctx: &mut Ctx, c: &VecCase) -> Outcome {
         .class_if(status != 0, "diagnosed-(exit-non-zero)")
         .class_if(multibyte, "multi-byte-operand")
         .class_if(c.binary, "through-binary")
+        .class_if(c.binary && c.raw_bytes_at.is_some(), "non-utf8-argument")
         .class_if(c.tokens.iter().any(|t| t == "-delete"), "with-delete")
         .class_if(c.tokens.iter().any(|t| t == "-ls" || t == "-fls"), "with-ls")
         .sample(json!({"cmdline": format!("find {}", args.join(" ")), "exit": status}))
@@ -605,7 +620,7 @@ fn check_vec(ctx: &mut Ctx, c: &VecCase) -> Outcome {
 /// deterministic probes of shapes named in the statement
 fn probes() -> Vec<VecCase> {
     let s = |x: &str| x.to_string();
-    let mk = |tokens: Vec<&str>| VecCase { flags: vec![], roots: vec![s("c/r")], tokens: tokens.iter().map(|x| s(x)).collect(), binary: false };
+    let mk = |tokens: Vec<&str>| VecCase { flags: vec![], roots: vec![s("c/r")], tokens: tokens.iter().map(|x| s(x)).collect(), binary: false, raw_bytes_at: None };
     vec![
         mk(vec!["-ls"]),
         mk(vec!["-delete", "-ls"]),
@@ -634,6 +649,8 @@ fn probes() -> Vec<VecCase> {
         mk(vec!["-samefile", "c/r/lnk_loop"]),
         mk(vec!["-newer", "c/r/lnk_dangling"]),
         mk(vec!["-files0-from", "c/ref"]),
+        VecCase { flags: vec![], roots: vec![s("c/r")], tokens: vec![s("-name"), s("x")], binary: true, raw_bytes_at: Some(1) },
+        VecCase { flags: vec![], roots: vec![s("c/r")], tokens: vec![s("-print")], binary: true, raw_bytes_at: Some(0) },
     ]
 }
 
